@@ -71,6 +71,25 @@ impl<'a> World<'a> {
         }
     }
 
+    /// position(o) for each of the given offsets on iterator h (0-based)
+    pub fn positions(&mut self, h: usize, offs: &[usize]) -> Value {
+        let r = catch_unwind(AssertUnwindSafe(|| {
+            offs.iter()
+                .map(|o| {
+                    let p = match &self.iters[h] {
+                        It::Plain(f) => PositionProvider::position(f, *o),
+                        It::Pos(f) => PositionProvider::position(f, *o),
+                    };
+                    json!([p.line, p.column])
+                })
+                .collect::<Vec<_>>()
+        }));
+        match r {
+            Ok(v) => json!(v),
+            Err(e) => json!({"panic": panic_msg(e)}),
+        }
+    }
+
     fn exec_inner(&mut self, ev: &Value, cfg_of: &dyn Fn(u64) -> Option<CfgSpec>, want_pos: bool) -> Value {
         let op = ev["op"].as_str().unwrap_or("");
         let h = ev.get("it").and_then(|x| x.as_u64()).map(|x| x as usize - 1);
